@@ -39,7 +39,7 @@ PROPS = {
                 fields={"kind", "res", "Dseq", "Dset", "obs", "strong", "weak", "freed", "live"},
                 oracles={"C05", "C06", "C01", "C02", "fault", "C10"}, noadopt_only=True),
     "C08": dict(statement_status="PROVED: tables_consistent (wf, symmetric, both ends alive, Loopback = self) in every configuration; adopt_spec / unadopt_counts (exact deltas, saturating); release_links_TblInv / purge_dying_TblInv (records of a dying object disappear). The ledger form (records change ONLY by adopt/unadopt or death) is the frame theorem of Inv/TablesFrame.v when present.", streams=CORE + ["rand_cwa", "rand_cwo"], fields={"kind", "tables"}, oracles={"C08"}),
-    "C09": dict(statement_status="PROVED at the atomic-function level and for Rc::drop as a whole: cycle_refs_perm, orphaned_cycle_perm, drop_strong_perm (two table orders and two oracles), drop_cycle_oracle_indep; plus every Inv theorem quantifies over the oracle. A lockstep simulation of whole runs is not claimed (destructor order inside a group legitimately differs).", streams=["corpus", "shp4", "shp3", "rand_cwf"], fields={"kind", "Dset", "strong", "weak", "obs"}, oracles=set()),
+    "C09": dict(statement_status="PROVED at the atomic-function level and for Rc::drop as a whole: cycle_refs_perm, orphaned_cycle_perm, drop_strong_perm (two table orders and two oracles), drop_cycle_oracle_indep; plus every Inv theorem quantifies over the oracle. WHOLE RUNS (Proofs/Determ.v): for fully recorded, scriptless programs (rec_hist) two executions of the same calls under arbitrary oracles, fuels and table orders return the same results and end in the same heap up to table order, same registers, same destructor runs and released tables up to order (run_history_oracle_independent, run_history_table_order_independent, per call: exec_op_oracle_independent). With destructor scripts the order inside a group is observable by the scripts themselves and no such statement is claimed.", streams=["corpus", "shp4", "shp3", "rand_cwf"], fields={"kind", "Dset", "strong", "weak", "obs"}, oracles=set()),
     "C10": dict(statement_status="PROVED: act_inv (every action incl. nested collections from destructors preserves Inv under act_safe), steps_inv / steps_no_fault (Inv at every re-entry point). The RefCell protocol is an annotation layer (Proofs/Borrow.v, hand transcription of which table is borrowed where): no_borrow_across_user_code / no_borrow_conflict_in_history (conflict free, balanced; negative controls show the skip test and the explicit drop(links) are what avoid the panic); the harness's unexpected-panic oracle ties it to the code.", streams=["corpus", "rand_cws", "rand_cwsf", "rt_cws"],
                 fields={"kind", "Dset", "strong", "weak", "tables", "freed", "res", "obs", "live"},
                 oracles={"C10", "C01", "C02", "C03", "C05", "C06", "fault"}),
